@@ -39,3 +39,93 @@ Proof.
   destruct (g_prefix _ _ G r0 x0 Hin0 Hinx N0 Nx Hlt) as [H0 _].
   apply negb_true_iff, Z.eqb_neq in Hex. contradiction.
 Qed.
+
+(* ---- the same rows, seen by the orchestrator and by the report ----------------------------------------
+   Both developments read the rows of ONE step file (C01's model: Step/StepDefs.row).  The report reads
+   name, exit, duration, delta, log, time, skip ([view], Report/ReportTypes.v); the orchestrator models
+   read step, name, exit, skip ([orch_view]).  The status theorem of C05 is composed here with what C03
+   proves about the files the orchestrator leaves, on the same list of rows. *)
+From Robsd Require Import Orch.ResumeExec Orch.WrittenInv Report.ReportProofs.
+From Coq Require Import String.
+
+Definition fn_step := Eval vm_compute in bs "step"%string.
+
+Definition orch_view (st : StepDefs.row) : ResumeDefs.srow :=
+  mkrow (geti st fn_step) (gets st fn_name) (geti st fn_exit) (geti st fn_skip).
+
+(* the status hypotheses read the exit and skip fields only *)
+Definition es (r : ReportTypes.srow) : Z * Z := (ReportTypes.r_exit r, ReportTypes.r_skip r).
+
+Lemma reachable_seqb_ext rows : forall rows', map es rows = map es rows' -> reachable_seqb rows = reachable_seqb rows'.
+Proof.
+  assert (Hall : forall a b : list ReportTypes.srow, map es a = map es b ->
+            forallb (fun x => negb (nonskipped x)) a = forallb (fun x => negb (nonskipped x)) b).
+  { induction a as [|x a IH]; intros [|y b] E; try discriminate E; [reflexivity|].
+    cbn [map es] in E. injection E as _ Hsk Htl. cbn [forallb]. rewrite (IH b Htl). unfold nonskipped.
+    rewrite Hsk. reflexivity. }
+  induction rows as [|r rs IH]; intros [|r' rs'] E; try discriminate E; [reflexivity|].
+  cbn [map es] in E. injection E as Hex Hsk Htl. cbn [reachable_seqb]. rewrite (IH rs' Htl), (Hall rs rs' Htl).
+  unfold failing, nonskipped. rewrite Hex, Hsk. reflexivity.
+Qed.
+
+Lemma reachable_seq_ext rows rows' : map es rows = map es rows' -> reachable_seq rows -> reachable_seq rows'.
+Proof. intros E H. apply reachable_seqb_iff. rewrite <- (reachable_seqb_ext rows rows' E). now apply reachable_seqb_iff. Qed.
+
+Lemma skipped_exit0_of_skip0 (rows : list StepDefs.row) :
+  skip0 (map orch_view rows) -> skipped_exit0 (map view rows).
+Proof.
+  intros H r Hr Hs. apply in_map_iff in Hr. destruct Hr as [st [<- Hst]].
+  apply (H (orch_view st)); [now apply in_map|exact Hs].
+Qed.
+
+Lemma reachable_seq_of_goodk k (rows : list StepDefs.row) :
+  goodk k (map orch_view rows) -> reachable_seq (map view rows).
+Proof.
+  intros G. apply (reachable_seq_ext (map to_report (map orch_view rows))).
+  - rewrite !map_map. reflexivity.
+  - apply (good_meets_report_hypothesis (map (fun s => (s, 0)) k)). apply goodk_good.
+    unfold skel_of. rewrite map_map. cbn [fst]. rewrite map_id. exact G.
+Qed.
+
+(* the files reachable by crashes and resumed runs of the sequential loop are written files *)
+Lemma skip_rows_written f :
+  ids_asc f -> (forall r, In r f -> ResumeDefs.r_skip r = 1 /\ ResumeDefs.r_exit r = 0) -> written f.
+Proof.
+  induction 1 as [|x f Hs IH Hx]; intros H; [constructor|].
+  assert (E : x :: f = upsert x f).
+  { destruct f as [|y f]; [reflexivity|]. cbn [upsert]. inversion Hx; subst.
+    destruct (Z.eqb_spec (ResumeDefs.r_id x) (ResumeDefs.r_id y)); [lia|].
+    destruct (Z.ltb_spec (ResumeDefs.r_id x) (ResumeDefs.r_id y)); [reflexivity|lia]. }
+  rewrite E. destruct (H x (or_introl eq_refl)) as [E1 E2]. destruct x as [i n e s]. cbn in E1, E2. subst e s.
+  apply (w_skip f i n). apply IH. intros r Hr. apply H. now right.
+Qed.
+
+Lemma reachv_written k f : reachv k f -> written f.
+Proof.
+  induction 1 as [f [Ha [Hs _]]|f steps g ex [Ha [Hs _]] _ Hin|f x steps g ex _ IH _ _ Hin|f sk _ IH _ _ _].
+  - now apply skip_rows_written.
+  - eapply w_seq; [|exact Hin]. now apply skip_rows_written.
+  - eapply w_seq; eauto.
+  - revert f IH. induction sk as [|[i n] sk IHs]; intros f Hf; [exact Hf|].
+    cbn [reskip fold_left fst snd]. apply IHs. apply (w_skip f i n Hf).
+Qed.
+
+(* C05's status theorem without its two hypotheses, for the step files the orchestrator produces:
+   any mode that counts failures (regress, canvas) with any writer history [written] - entry scripts,
+   sequential and parallel loop, any schedule, crashes and resumed runs; the sequential modes with any
+   crash/resume history of the sequential loop [reachv], exit codes free at every attempt *)
+Theorem status_orchestrated m (rows : list StepDefs.row) :
+  (counting m = true -> written (map orch_view rows)) ->
+  (counting m = false -> exists k, wf_skel k /\ reachv k (map orch_view rows)) ->
+  let rr := map view rows in
+  report_status m rr = spec_status m rr /\
+  (report_status m rr = str_ok <->
+     (forall r, In r rr -> ReportTypes.r_skip r <> 1 -> ReportTypes.r_exit r = 0)) /\
+  (forall f fs, failures rr = f :: fs ->
+     if counting m then report_status m rr = count_text (List.length (f :: fs))
+     else fs = [] /\ report_status m rr = (str_failed_in ++ ReportTypes.r_name f)%list).
+Proof.
+  intros Hc Hs rr. apply status_ok_iff.
+  - intros E. apply skipped_exit0_of_skip0, written_skip0, Hc, E.
+  - intros E. destruct (Hs E) as [k [W R]]. apply (reachable_seq_of_goodk k). now apply reachv_goodk.
+Qed.
